@@ -496,6 +496,14 @@ SEQ_NOTE = ("The theorems are about the Coq model; the model is tied to /repo on
             "case) and comparing every relevant result line. Schedules are those of one request at a time run to "
             "quiescence; interleavings of concurrent requests are the business of the concurrent models.")
 
+CSUB_NOTE = ("The concurrent theorems are about a small-step Coq model of ONE subscription (tokio Notify modelled exactly: "
+             "permit, FIFO waiters, notify_waiters counter, forwarding on drop; the actor with its bounded mailbox; unary and "
+             "streaming consumers at the granularity of their await points; cancellation, the 300 s limit and the deleted "
+             "branch as steps). It is hand-written from subscription_actor.rs, api/subscriber.rs and tokio's notify.rs and "
+             "is not trace-tied to the code: its refutation theorem for the pinned code was replayed on the "
+             "implementation and failed there exactly as predicted (and no longer fails after fix fd73b54), and the "
+             "cancel-woken / woken-dropped / delete-release streams run the real Notify under the same schedules on every check.")
+
 def eng_id_lists(mon, kinds):
     def eng(ctx):
         cases = [c for c in gen.id_list_cases() if c[0].split("-")[1] in kinds]
@@ -598,7 +606,8 @@ reg("C10", [eng_control_random(M.mon_namespace, {"CT", "CS"}, always=True), eng_
                "operation (DESIGN 7/C10) and not yet a Coq theorem.")
 
 reg("C11", [eng_control_random(M.mon_namespace, {"DT", "DS"}, always=True),
-            eng_data_random(M.mon_namespace, {"DS", "DT"}, relevant=CTL_OPS | DATA_OPS, tag="data-random", always=True)],
+            eng_data_random(M.mon_namespace, {"DS", "DT"}, relevant=CTL_OPS | DATA_OPS, tag="data-random", always=True),
+            lambda ctx: eng_racestress(ctx)],
     rule="random scripts deleting and re-creating topics and subscriptions with publishes and pulls in between; "
          "ListTopicSubscriptions / GetSubscription / STATS after deletions. non-trivial = a successful delete",
     monitor=M.mon_namespace, title="Deletion keeps topics and subscriptions consistent with each other", design_ref="7/C11",
@@ -629,8 +638,9 @@ reg("C15", [eng_capacity, eng_data_random(M.mon_batch, {"PULL"}, streams=True, t
     level_text="Proved for all i32 limits and all backlog sizes: the batch size formula, the unary bound (also where the "
                "16-bit conversion wraps), acceptance range and bound for streams, non-emptiness on a non-empty backlog. "
                + SEQ_NOTE,
-    level_note="The rule about when a blocking Pull may answer empty is a statement about waiting (concurrent model), "
-               "not yet a Coq theorem; checked here only through return_immediately pulls.")
+    level_note="The rule about when a blocking Pull may answer empty is proved in the concurrent model of one subscription "
+               "(C15c_*: only through its 300 s limit; an empty reply of the actor makes the consumer wait) and in the "
+               "sequential model (WaitP); " + "it is exercised on the real server by the wait streams of C06.")
 
 reg("C17", [eng_malformed, eng_names_pure, eng_codec_pure],
     rule="malformed: per case a valid setup, then 3-8 requests each with one malformed field (names, ack ids, tokens, "
@@ -817,6 +827,31 @@ def eng_wait_enum(ctx):
     return ctx.seq("wait-enum", cases, relevant=WAIT_OPS, triggers={"SR", "JOIN"}, monitor=M.mon_wait)
 
 
+def eng_racestress(ctx):
+    """Multi-thread runtime, real time: CreateSubscription racing a DeleteSubscription of the same name that spins
+    until the name appears (the schedule of ConcActorsP.C11_refuted_without_guard), then the topic's list is compared
+    with the manager.  A stress search, not a sweep: it can only ever find a violation, never exclude one."""
+    n = ctx.n(4000, 100000)
+    p = sh([HARNESS, "racestress", str(n), "8"], check=False, timeout=3000)
+    m = re.search(r"RACESTRESS iterations=(\d+) deleted_before_attach=(\d+) stale=(\d+) publish_failed=(\d+)", p.stdout or "")
+    st = ctx.stats
+    st["evaluations"] += n
+    st["streams"]["racestress"] = {"cases": n, "raced": int(m.group(2)) if m else None,
+                                   "stale": int(m.group(3)) if m else None}
+    if m:
+        st["distinct"].add("racestress")
+    if not m:
+        return [("engine", "racestress did not finish", {"output": (p.stdout or "")[-2000:], "signature": "engine:racestress"})]
+    if int(m.group(3)) > 0:
+        why = ("C11-stale-attachment: in %s of %s create/delete races the topic still lists a subscription that no longer "
+               "exists (%s later Publish calls failed)" % (m.group(3), m.group(1), m.group(4)))
+        return [("violation", "racestress: " + why,
+                 {"engine": "racestress", "failing_input_found": True, "monitor": why, "signature": "monitor:C11-stale-attachment",
+                  "replay_cmd": ".cache/target/release/harness racestress %d 8" % n, "output": (p.stdout or "")[-2000:],
+                  "broken": "stress search on the implementation (multi-thread runtime)"})]
+    return []
+
+
 def eng_burst_shapes(ctx):
     cases = gen.burst_shape_cases(range(ctx.n(80, 1500)))
     return ctx.seq("burst-shapes", cases, relevant={"CT", "CS"}, triggers={"JOIN"}, monitor=mon_burst, always_monitor=True)
@@ -853,18 +888,23 @@ reg("C06", [eng_wait_enum, eng_wait_random(M.mon_wait, {"SR", "JOIN"}), eng_canc
          "requests put into the subscription's mailbox polled k times and dropped, a second blocked Pull or a stream "
          "waiting behind it (the schedule of C06_refuted_cancel_owing). non-trivial = a waiting consumer received messages",
     monitor=M.mon_wait, title="Waiting consumers are woken when a message becomes available", design_ref="7/C06",
-    technique="Coq: the serving loop of the quiescent model terminates by exhaustion of messages or of waiters "
-              "(induction on fuel with the explicit measure), availability always makes the actor run; differential "
-              "correspondence with blocked Pulls and several streams per subscription",
+    technique="Coq: token invariant of a small-step model of tokio Notify + actor + consumers (induction over all "
+              "interleavings), refutation for the pinned code; serving loop of the quiescent model; differential "
+              "correspondence with blocked Pulls and several streams per subscription, cancellation sweeps",
     level_text="Proved for the sequential-issue model (requests one at a time, server run to quiescence in between; any "
                "number and mix of waiting streams and blocked Pulls): at every quiescent point a non-empty backlog and a "
                "waiting consumer do not coexist; the availability event itself (post, nack, expiry tick) makes the actor "
                "run and serve; a woken Pull gets at least one message; who is served is the oldest waiter (tokio Notify "
-               "FIFO), streams re-queue behind the others. " + SEQ_NOTE,
-    level_note="PARTIAL with respect to the property's quantifier: interleavings of the availability event with a "
-               "consumer's check-then-wait step, and cancellation of a consumer while it is being woken, are not "
-               "covered by a theorem (the concurrent small-step model of Notify is not built); the correspondence "
-               "runs exercise the real Notify only at quiescence granularity with seeded select! order.")
+               "FIFO), streams re-queue behind the others. Proved for the concurrent model of one subscription (every "
+               "interleaving of actor turns, consumer micro-steps, posts, nacks, expiries, arrivals, cancellations and "
+               "timeouts; any number of consumers, any mailbox capacity): while the subscription exists and its backlog is "
+               "non-empty a notification is always pending somewhere, so the lost-wake-up state is unreachable and at "
+               "quiescence nobody is parked on a non-empty backlog; cancelling a sleeping or a woken consumer passes the "
+               "wake-up on; for the pinned code the same invariant is refuted by an explicit schedule. " + SEQ_NOTE + " "
+               + CSUB_NOTE,
+    level_note="Liveness in the sense 'the woken consumer is eventually scheduled' rests on the fairness of the tokio "
+               "scheduler, which is assumed; batch contents are abstract (counters) in the concurrent model and concrete in "
+               "the sequential one.")
 
 reg("C12", [eng_delete_release, eng_wait_random(M.mon_release, {"DS"}), eng_burst_shapes],
     rule="delete-release: per runtime seed, DeleteSubscription with two streams (request side open / closed), a blocked "
@@ -878,9 +918,12 @@ reg("C12", [eng_delete_release, eng_wait_random(M.mon_release, {"DS"}), eng_burs
                "NOT_FOUND, completes every Pull blocked on it with an error status, leaves nobody waiting on it and does "
                "not disturb consumers of other subscriptions; later requests find the name absent. Racing requests are "
                "exercised on the real server over runtime seeds: each must complete (any status), none may hang. "
-               + SEQ_NOTE,
-    level_note="PARTIAL: 'for all interleavings and all outcomes of select!' is covered by seeds 0..N on the real "
-               "server, not by a theorem over a concurrent model.")
+               "Proved for the concurrent model of one subscription, for every interleaving and every choice of the "
+               "select! branches: once the deletion was processed and internal activity has ended every consumer has "
+               "finished (streams NOT_FOUND, Pulls an error), an unfinished consumer always has a step to take, and the "
+               "number of steps it can still take is explicitly bounded. " + SEQ_NOTE + " " + CSUB_NOTE,
+    level_note="Requests racing the deletion other than pulls (ack/modify/get) are covered by the actor model of C07 "
+               "(queued requests are answered when the subscription exits) and by the burst-shapes stream.")
 
 
 # ================================================================= C16 abandoned requests
@@ -974,7 +1017,7 @@ def eng_burst(ctx):
 
 
 
-reg("C16", [eng_abandon, eng_burst],
+reg("C16", [eng_abandon, eng_burst, lambda ctx: eng_racestress(ctx)],
     rule="abandon: the library-level future of CreateSubscription / DeleteSubscription / Publish / Pull / Acknowledge / "
          "DeleteTopic polled k times (y scheduler yields in between) and dropped, with the target actor's mailbox empty "
          "or saturated (0/16/24 pending requests); then Get/List/STATS/Publish/Pull probes, expiry, and re-creation of "
